@@ -14,19 +14,19 @@ import (
 // Address pool: every (class x stability x exclusion flag) combination that
 // matters for C13/C14, several hosts in one /64, other prefix lengths.
 var addrPool = []AddrW{
-	{CIDR: "fd00:1::1/64"},                                              // ULA
-	{CIDR: "fd00:1::2/64", Flags: unix.IFA_F_STABLE_PRIVACY},            // ULA stable, same /64
-	{CIDR: "fd00:2::1/64", Flags: unix.IFA_F_MANAGETEMPADDR},            // ULA mngtmpaddr
-	{CIDR: "fd00:3::211:22ff:fe33:4455/64"},                             // ULA EUI-64
-	{CIDR: "2001:db8:a::1/64"},                                          // GUA
-	{CIDR: "2001:db8:a::2/64", Forever: true},                           // GUA static, same /64
-	{CIDR: "2001:db8:b::1/64", Flags: unix.IFA_F_TEMPORARY},             // GUA temporary
-	{CIDR: "2001:db8:c::1/64", Flags: unix.IFA_F_TENTATIVE},             // GUA tentative
-	{CIDR: "2001:db8:d::1/64", Flags: unix.IFA_F_DEPRECATED},            // GUA deprecated
-	{CIDR: "2001:db8:e::1/48"},                                          // other length
-	{CIDR: "2001:db8:f::1/128", Forever: true},                          // host address
-	{CIDR: "fe80::211:22ff:fe33:4455/64"},                               // LLA EUI-64
-	{CIDR: "fe80::5/64", Flags: unix.IFA_F_TENTATIVE},                   // LLA tentative
+	{CIDR: "fd00:1::1/64"}, // ULA
+	{CIDR: "fd00:1::2/64", Flags: unix.IFA_F_STABLE_PRIVACY}, // ULA stable, same /64
+	{CIDR: "fd00:2::1/64", Flags: unix.IFA_F_MANAGETEMPADDR}, // ULA mngtmpaddr
+	{CIDR: "fd00:3::211:22ff:fe33:4455/64"},                  // ULA EUI-64
+	{CIDR: "2001:db8:a::1/64"},                               // GUA
+	{CIDR: "2001:db8:a::2/64", Forever: true},                // GUA static, same /64
+	{CIDR: "2001:db8:b::1/64", Flags: unix.IFA_F_TEMPORARY},  // GUA temporary
+	{CIDR: "2001:db8:c::1/64", Flags: unix.IFA_F_TENTATIVE},  // GUA tentative
+	{CIDR: "2001:db8:d::1/64", Flags: unix.IFA_F_DEPRECATED}, // GUA deprecated
+	{CIDR: "2001:db8:e::1/48"},                               // other length
+	{CIDR: "2001:db8:f::1/128", Forever: true},               // host address
+	{CIDR: "fe80::211:22ff:fe33:4455/64"},                    // LLA EUI-64
+	{CIDR: "fe80::5/64", Flags: unix.IFA_F_TENTATIVE},        // LLA tentative
 	{CIDR: "2001:db8:1:2::99/64", Flags: unix.IFA_F_DEPRECATED | unix.IFA_F_STABLE_PRIVACY},
 	{CIDR: "fd00:1::3/64", Flags: unix.IFA_F_TEMPORARY | unix.IFA_F_STABLE_PRIVACY},
 	{CIDR: "2001:db8:0:1::1/64", Flags: unix.IFA_F_STABLE_PRIVACY},
@@ -37,17 +37,17 @@ var addrPool = []AddrW{
 // host routes, the default route.
 var routePool = []RouteW{
 	{Prefix: "2001:db8:100::/48"},
-	{Prefix: "2001:db8:100::/64"},       // same base as the /48
-	{Prefix: "2001:db8:100:5::/64"},     // inside the /48, other base
+	{Prefix: "2001:db8:100::/64"},   // same base as the /48
+	{Prefix: "2001:db8:100:5::/64"}, // inside the /48, other base
 	{Prefix: "2001:db8:200::/56"},
-	{Prefix: "2001:db8:200:80::/64"},    // not inside the /56 (0x80 > 0x7f?) see note
-	{Prefix: "2001:db8:200:1::/64"},     // inside the /56
+	{Prefix: "2001:db8:200:80::/64"}, // not inside the /56 (0x80 > 0x7f?) see note
+	{Prefix: "2001:db8:200:1::/64"},  // inside the /56
 	{Prefix: "fd00:aa::/32"},
-	{Prefix: "fd00:aa:bb::/48"},         // inside the /32
+	{Prefix: "fd00:aa:bb::/48"}, // inside the /32
 	{Prefix: "2001:db8:300::1/128"},
 	{Prefix: "::1/128"},
 	{Prefix: "2001:db8:400::/64", Idx: 90},
-	{Prefix: "2001:db8:400::/64"},       // duplicate across two loopbacks
+	{Prefix: "2001:db8:400::/64"}, // duplicate across two loopbacks
 	{Prefix: "::/0"},
 }
 
